@@ -5,6 +5,8 @@ Model: BV.Cmd (ProtocolHandler.command / __call__ at settled loop states, repair
 -/
 import BV.Model.Ezsp.Cmd
 import BV.Model.Ezsp.Registry
+import BV.Proofs.Src.Cmd
+import BV.Gen.Commands
 namespace BV.Props.C06
 open BV.Cmd BV.Gen.Priority
 
@@ -508,5 +510,92 @@ example : (Registry.run {} [.add 7 100, .add 8 100, .add 9 101, .remove 100, .ad
 
 
 end Registry
+
+
+/-! ### the same clauses over the definitions generated from `ProtocolHandler.command`, `_ezsp_frame` and
+`_get_command_priority` (BV/Gen/SrcCmd.lean)
+
+The coroutine is translated from the syntax tree on every run.  It runs against an arbitrary *script* of what the environment does at
+its three await points (is the semaphore granted; which frames arrive while `send_data` runs and how it ends; which frames arrive
+during the bounded wait and what ends it); every such frame goes through the guard of `frame_received` into the generated
+`ProtocolHandler.__call__` on the same state.  `BV.Proofs.Src.Cmd` evaluates the generated code for every script. -/
+section Src
+open BV.Py BV.Codec BV.Src.Cmd BV.Proofs.Src.Cmd
+
+/-- **no entry is left behind** (source level; the `finally` block this repair added): for every script - replies, strays,
+duplicates, no reply; a send failure; the timeout; cancellation at any of the three await points; a script that does not fit -
+every entry of `_awaiting` after the call was there before it, none holds a future of this call, and the table stays
+well-formed -/
+theorem c06_src_no_entry_left (s : Proto) (name : String) (args : Vals) (kwargs : KwVals) (hw : WF s) :
+    (∀ e ∈ (command name args kwargs s).2.awaiting, e ∈ s.awaiting ∧ e.2.2 < s.futs.length) ∧ WF (command name args kwargs s).2 := by
+  obtain ⟨h1, h2, -, -⟩ := command_sub s name args kwargs hw
+  exact ⟨fun e he => ⟨h1 e he, hw e (h1 e he)⟩, h2⟩
+
+/-- **the slot is given back exactly once, last** (source level): entered ⇒ entry, events that are no semaphore events, one release;
+not entered ⇒ no event and no release -/
+theorem c06_src_release_once (s : Proto) (name : String) (args : Vals) (kwargs : KwVals) (hw : WF s) :
+    ((∀ rest, s.script ≠ .acquire true :: rest) → (command name args kwargs s).2.trace = s.trace) ∧
+    (∀ rest, s.script = .acquire true :: rest →
+      ∃ t, (command name args kwargs s).2.trace = s.trace ++ [.acquire (prioOf name)] ++ t ++ [.release] ∧ Quiet t) :=
+  command_trace s name args kwargs hw
+
+/-- **the priority asked for** (source level) is the reflected table `BV.Gen.Priority.nonZero` that `c06_priority_classes` is
+about, for every command name -/
+theorem c06_src_priority (name : String) (s : Proto) :
+    get_command_priority name s = (.ok ((BV.Gen.Priority.nonZero.lookup name).getD 0), s) :=
+  get_command_priority_eq name s
+
+/-- **register, then send, one step of the counter** (source level): the request carries the handler's sequence number in the
+version's header layout, the command's frame ID and the arguments in declared order; it is handed over once, right after the entry;
+the counter ends one further modulo 256 however the call ends -/
+theorem c06_src_request (s : Proto) (name : String) (args : Vals) (kwargs : KwVals) (c : Cmd) (b : List UInt8)
+    (frames : List (List UInt8)) (out : Option String) (rest : List CResp) (hw : WF s)
+    (hs : s.script = .acquire true :: .send frames out :: rest) (hc : findByName s.cmds name = some c) (hq : s.seq < 256)
+    (hid : c.id ≤ maxId (hdrOf s.version)) (hb : txBody c args kwargs = .ok b) :
+    (∃ t, (command name args kwargs s).2.trace =
+        s.trace ++ [.acquire (prioOf name), .sent (txHeader (hdrOf s.version) s.seq c.id ++ b)] ++ t ++ [.release] ∧ Calm t) ∧
+    (command name args kwargs s).2.seq = (s.seq + 1) % 256 :=
+  command_sends s name args kwargs c b frames out rest hw hs hc hq hid hb
+
+/-- **a value comes only from the own reply** (source level): values returned ⇒ one of the frames received while the call was
+suspended decodes, under the handler's version and table, to exactly these values with the sequence number placed in the request
+and the frame ID of the command - late replies, duplicates, replies under another number or ID never produce a return value -/
+theorem c06_src_own_reply (s : Proto) (name : String) (args : Vals) (kwargs : KwVals) (v : Vals) (sf : Proto) (hw : WF s)
+    (h : command name args kwargs s = (.ok v, sf)) :
+    ∃ c f1 f2 fin rest, s.script = .acquire true :: .send f1 none :: .wait f2 fin :: rest ∧ findByName s.cmds name = some c ∧
+      ∃ d ∈ f1 ++ f2, ∃ nm tr, rxFrame s.version s.cmds d = .ok s.seq c.id nm v tr ∧ nm ≠ "invalidCommand" :=
+  command_result s name args kwargs v sf hw h
+
+/-- **the timeout** (source level): no frame with the call's sequence number while it is suspended ⇒ `TimeoutError` at the
+deadline (`CancelledError` when the caller is cancelled), and the call's future is dead afterwards -/
+theorem c06_src_timeout (s : Proto) (name : String) (args : Vals) (kwargs : KwVals) (c : Cmd) (data : List UInt8)
+    (f1 f2 : List (List UInt8)) (fin : WaitEnd) (rest : List CResp) (hw : WF s)
+    (hs : s.script = .acquire true :: .send f1 none :: .wait f2 fin :: rest) (hc : findByName s.cmds name = some c)
+    (hfr : (ezsp_frame name args kwargs (entered s name (.send f1 none :: .wait f2 fin :: rest))).1 = .ok data)
+    (hno : ∀ d ∈ f1 ++ f2, ∀ id nm v tr, rxFrame s.version s.cmds d ≠ .ok s.seq id nm v tr) :
+    (command name args kwargs s).1 = .error (.raised (match fin with | .deadline => "TimeoutError" | .cancelled => "CancelledError")) ∧
+    (command name args kwargs s).2.futs[s.futs.length]? = some .finished :=
+  command_timeout s name args kwargs c data f1 f2 fin rest hw hs hc hfr hno
+
+/-- `_ezsp_frame` (source level) is the model's `txFrame` header and changes nothing -/
+theorem c06_src_frame (s : Proto) (name : String) (args : Vals) (kwargs : KwVals) (c : Cmd) (hc : findByName s.cmds name = some c)
+    (hs : s.seq < 256) (hid : c.id ≤ maxId (hdrOf s.version)) :
+    ezsp_frame name args kwargs s = ((txBody c args kwargs).map (txHeader (hdrOf s.version) s.seq c.id ++ ·), s) :=
+  ezsp_frame_eq s name args kwargs c hc hs hid
+
+/-! non-vacuity: a handler of protocol version 8 with the generated table, sequence number 255, one stale foreign entry; `getValue`
+is answered (after a callback and a stray reply under another number) / is never answered -/
+def st0 : Proto := { version := 8, cmds := BV.Gen.Commands.cmdsV8, seq := 255, awaiting := [(7, (5, 0))], futs := [.finished] }
+
+example : WF st0 := by intro e he; simp [st0] at he; subst he; decide
+
+/-- the hypotheses of `c06_src_request` / `c06_src_timeout` hold for `getValue(3)` on that handler: the command is in the table,
+its frame ID fits the header, the argument serialises (to the byte 3) -/
+example : ∃ c, findByName st0.cmds "getValue" = some c ∧ c.id = 170 ∧ c.id ≤ maxId (hdrOf st0.version) ∧
+    txBody c [.num 3] [] = .ok [3] := by
+  refine ⟨⟨"getValue", 170, [("valueId", .uint 1)], [("status", .uint 1), ("value", .lvbytes 1)]⟩, by rfl, rfl, by decide, ?_⟩
+  simp [txBody, schemaIsDict, serDict, resolveArgs, resolveArgs.go, serFields, ser, leBytes]
+
+end Src
 
 end BV.Props.C06
